@@ -21,10 +21,11 @@ theorem floatGuard_spec (c : FCls) : floatGuardRejects c = true ↔ c ≠ .finit
   cases c <;> simp [floatGuardRejects, floatRejectsFinite, floatRejectsInf, floatRejectsNaN]
 
 /-- The third obligation tied to the source: the `if / elif` chain of `coerce_int` that `coerceInt` mirrors branch by
-    branch (int — which includes bool —, float, None, str, anything else). Re-ordering, dropping or changing a branch re-opens it. -/
+    branch (int — which includes bool —, float with `int(x)` guarded against OverflowError / ValueError (fix A6), None, str,
+    anything else), and the OverflowError handler of `coerce_float`. Re-ordering, dropping or changing a branch re-opens it. -/
 theorem coerceInt_branches_spec :
-    coerceIntBranches = [("int", "identity"), ("float", "int-if-equal"), ("None", "raise"),
-                         ("str", "int10-else-integral-float"), ("else", "raise")] := by decide
+    coerceIntBranches = [("int", "identity"), ("float", "int-if-equal-guarded"), ("None", "raise"),
+                         ("str", "int10-else-integral-float"), ("else", "raise")] ∧ floatCatchesOverflow = true := by decide
 
 theorem floatChecked_ok {c : FCls} {r pv : PV} (h : floatChecked c r = .ok pv) : pv = r ∧ c = .finite := by
   unfold floatChecked at h
@@ -36,6 +37,9 @@ theorem floatChecked_ok {c : FCls} {r pv : PV} (h : floatChecked c r = .ok pv) :
     · rfl
     · exact absurd ((floatGuard_spec .inf).2 (by simp)) hg
     · exact absurd ((floatGuard_spec .nan).2 (by simp)) hg
+
+theorem floatChecked_nonfinite {c : FCls} (hc : c ≠ .finite) (r : PV) : floatChecked c r = .error .coercion := by
+  simp [floatChecked, (floatGuard_spec c).2 hc]
 
 theorem floatChecked_finite (r : PV) : floatChecked .finite r = .ok r := by
   have : floatGuardRejects .finite = false := by
